@@ -34,7 +34,10 @@ Section Main.
   Proof.
     intros n k cl o pevs Hwf Hfit Hr.
     pose proof (wf_model_wfr cl Hwf) as Hw.
-    destruct (all_parse cfg c u ok ign (Parser.replay_n k c u) (Some cl) conv_law Hnodef n cl o None Hw Hfit pevs Hr)
+    assert (Hr0 : reads (add_xsi_e None (eobj n None o)) pevs) by (rewrite add_xsi_e_none; exact Hr).
+    assert (Hxq : forall q, xsi_val None = Some q -> ok (PQName q) = true /\ qname_ok q = true)
+      by (intros q Hq; discriminate Hq).
+    destruct (all_parse cfg c u ok ign (Parser.replay_n k c u) (Some cl) conv_law Hnodef n cl o None None Hw Hfit Hxq pevs Hr0)
       as [attrs [ns [inner [-> [Hxt [Hxn Hrun]]]]]].
     destruct (wfr_inv u cl Hw) as [m [Hm _]].
     assert (Ho : exists fs, o = VObj cl fs).
@@ -49,12 +52,12 @@ Section Main.
     assert (Hs : Parser.step cfg c u (Parser.replay_n k c u) (Some cl) Parser.init_state (PStart (elem_name u None cl) attrs ns)
                  = Parser.ROk (Parser.mk_pstate [Parser.NElement (Parser.mk_enode m attrs ns 0 false None None [] [])] [] [])).
     { cbn [Parser.step Parser.start Parser.init_state Parser.st_queue Parser.st_objects Parser.st_warn].
-      unfold Parser.root_node, Parser.xsi_type_of, Parser.xsi_nil_of. rewrite Hxt, Hxn.
+      unfold Parser.root_node. rewrite Hxt. unfold Parser.xsi_nil_of. rewrite Hxn.
       cbn [Parser.truthy_str Parser.rbind]. unfold Parser.fetch, Parser.get_meta. rewrite Hm. cbn [Parser.rbind Parser.truthy_str].
       reflexivity. }
     rewrite Hs. cbn [Parser.rbind].
     rewrite <- (app_nil_r inner).
-    pose proof (Hrun m Hm [] [] [] []) as Hr2. cbn [length app] in Hr2. rewrite Hr2.
+    pose proof (Hrun m Hm None [] [] [] []) as Hr2. cbn [length app] in Hr2. rewrite Hr2.
     cbn [Parser.run Parser.finish app Parser.st_objects Parser.st_warn last_error].
     reflexivity.
   Qed.
@@ -73,7 +76,8 @@ Section Main.
     - assert (Ho : exists fs, o = VObj cl fs).
       { destruct n; [discriminate|]. destruct (fits_inv c u ok py_isspace n cl o Hfit) as [fs [_ [-> _]]]. eauto. }
       destruct Ho as [fs ->]. unfold EventGen.generate, EventGen.generate_with.
-      apply (run_obj c u ok py_isspace ign n cl _ None Hw Hfit).
+      rewrite <- (add_xsi_g_none (gobj c u ign n None (VObj cl fs))).
+      apply (run_obj c u ok py_isspace ign n cl _ None None Hw Hfit).
       unfold EventGen.gen_fuel. pose proof (odepth_le_vdepth (VObj cl fs)). lia.
     - apply (events_mean c u ok py_isspace ign n cl o Hw Hfit).
     - intros k pevs Hr. apply (parse_reads n k cl o pevs Hwf Hfit Hr).
@@ -87,21 +91,22 @@ Section Main.
     assert (Ho : exists fs, o = VObj cl fs).
     { destruct n; [discriminate|]. destruct (fits_inv c u ok py_isspace n cl o Hfit) as [fs [_ [-> _]]]. eauto. }
     destruct Ho as [fs ->]. unfold EventGen.generate, EventGen.generate_with.
-    apply (run_obj c u ok py_isspace ign n cl _ None Hw Hfit).
+    rewrite <- (add_xsi_g_none (gobj c u ign n None (VObj cl fs))).
+    apply (run_obj c u ok py_isspace ign n cl _ None None Hw Hfit).
     unfold EventGen.gen_fuel. pose proof (odepth_le_vdepth (VObj cl fs)). lia.
   Qed.
 
   (* the same with the canonical reader stream: the statement in the form
      parse (pump (itree_of_events (generate ...))) = Ok o [] *)
   Theorem roundtrip_pump : forall n cl o,
-    wf_model u cl = true -> fits n cl o = true -> noq o = true ->
+    wf_model u cl = true -> fits n cl o = true -> noq o = true -> exact_classes u n cl o = true ->
     exists evs,
       EventGen.generate ign c u o = EventGen.Ok evs
       /\ Parser.parse cfg c u (Some cl) (pump (itree_of_events (map (of_wevent c) evs))) = Parser.Ok o [].
   Proof.
-    intros n cl o Hwf Hfit Hnq. pose proof (wf_model_wfr cl Hwf) as Hw.
+    intros n cl o Hwf Hfit Hnq Hex. pose proof (wf_model_wfr cl Hwf) as Hw.
     exists (bflat (gobj c u ign n None o)). split; [apply (generate_ok n cl o Hwf Hfit)|].
     rewrite (events_mean c u ok py_isspace ign n cl o Hw Hfit). cbn [pump]. unfold Parser.parse.
-    apply (parse_reads n _ cl o _ Hwf Hfit). apply reads_pump. apply (plain_obj c u ok ign n cl o None Hw Hfit Hnq).
+    apply (parse_reads n _ cl o _ Hwf Hfit). apply reads_pump. apply (plain_obj c u ok ign n cl o None Hw Hfit Hnq Hex).
   Qed.
 End Main.
